@@ -387,7 +387,7 @@ def floors(tier):
                       "delegate.returns_recorded_list": 1800},
          "classes": {"exhaustive": 30000, "random_reals": 15000, "N=12": 1000, "ties_between_optima": 5000,
                      "nonzero_diagonal": 3000, "entries_1e300": 1000, "negative_entries": 1500,
-                     "optimalSegmentation": 2000, "optimalSimplification": 500, "simplify_free_min": 400,
+                     "optimalSegmentation": 2000, "optimalSimplification": 500, "cost_function_precluding_some_segments": 300, "simplify_free_min": 400,
                      "simplify_free_max": 400, "simplify_mode4": 350, "simplify_mode5": 350,
                      "simplify_mode6": 350, "findStopsGlobal": 1200, "stops_found": 600,
                      "two_stops": 100, "no_stop": 60, "direction_default": 400,
@@ -409,7 +409,7 @@ def _track_pts(rng, n):
 def _cost_spec(rng, n):
     kind = rng.choice(["table", "table", "chord"])
     if kind == "table":
-        return {"cost": "table", "table": cost_table(rng, n, rng.choice(["uniform", "smallint", "signed", "sparse"]))}
+        return {"cost": "table", "table": cost_table(rng, n, rng.choice(["uniform", "smallint", "signed", "sparse", "huge", "huge"]))}
     return {"cost": "chord", "w": rng.choice([1.0, -1.0, 0.01]), "power": rng.choice([1, 2])}
 
 
@@ -753,6 +753,8 @@ def run_seg(case, ctx):
            "cost_" + case["cost"]]
     if g is not None:
         cls.append("with_global_parameter")
+    if case["cost"] == "table" and any(v >= 1e300 for row in case["table"] for v in row):
+        cls.append("cost_function_precluding_some_segments")
     case_w = {"call": "%s(track[%d fixes], cost=%s, glob_param=%r, mode=%s)" % (name, n, case["cost"], g, md)}
     v, rec, nt, cls = _delegate_common(ctx, r, name, want, sig, cls, case_w)
     if v is not None:
